@@ -443,9 +443,17 @@ var commentKinds = []struct{ name, class, text string }{
 	// "leftover" for the attachment pass when the gap follows the last child of a container)
 	{"groups-line", "line", "\n//%[1]s\n\n//%[1]sB\n"},
 	{"groups-block", "block", "\n/*%[1]s*/\n\n/*%[1]sB*/\n"},
+	// a same-line comment directly followed by an own-line comment (two groups at one gap, no blank line)
+	{"same+own-block-line", "block+line", "/*%[1]s*/\n//%[1]sB\n"},
+	{"same+own-line-line", "line+line", "//%[1]s\n//%[1]sB\n"},
+	{"same+own-block-block", "block+block", "/*%[1]s*/\n/*%[1]sB*/\n"},
+	{"same2+own-block", "blocks+block", "/*%[1]s*/ /*%[1]sB*/\n/*%[1]sC*/"},
 	{"doc", "docline", "///%s\n"},
 	{"docblock", "docblock", "/**%s*/"},
 }
+
+// afterSeparator: token classes after which list elements / members / statements start.
+var afterSeparator = map[string]bool{",": true, "(": true, "[": true, "{": true, ":": true, ";": true, "<": true}
 
 func insertAt(src string, off int, text string) string {
 	return src[:off] + text + src[off:]
@@ -499,7 +507,7 @@ func runC39(env *mc.Env) {
 	}
 
 	// (b) a comment at every token gap of the (smaller) corpus, every spelling
-	nKinds := mc.Pick(env, 6, len(commentKinds))
+	nKinds := mc.Pick(env, 10, len(commentKinds))
 	var accepted []srcgen.Program
 	single := func(p srcgen.Program, prog *ast.Program, g gap, k int, marker string) c39Job {
 		ck := commentKinds[k]
@@ -514,8 +522,10 @@ func runC39(env *mc.Env) {
 		accepted = append(accepted, p)
 		for gi, g := range tokenGaps(p.Src) {
 			for k := 0; k < nKinds; k++ {
-				if !thorough && k >= 2 && gi%3 != 0 {
-					continue // own-line spellings at every third gap in the quick tier
+				if !thorough && k >= 2 && gi%3 != 0 && !(k >= 6 && afterSeparator[g.Prev]) {
+					// quick tier: own-line spellings at every third gap; the same-line + own-line
+					// pairs additionally at every gap that follows a separator or an opener
+					continue
 				}
 				jobs = append(jobs, single(p, prog, g, k, "c1"))
 			}
